@@ -159,6 +159,8 @@ let body lines =
     | "tp" -> List.iter (fun l -> match words l with ["run"; _] -> print_string "tp ok\n" | _ -> print_string "badop\n") ops
     (* variants mixing trivially destructible and class-type alternatives: oracle-only *)
     | "mix" -> List.iter (fun l -> match words l with ["run"; _] -> print_string "mix ok\n" | _ -> print_string "badop\n") ops
+    (* expected over several error types: oracle-only *)
+    | "err" -> List.iter (fun l -> match words l with ["run"; _] -> print_string "err ok\n" | _ -> print_string "badop\n") ops
     | "il" -> List.iter (fun l -> match words l with
         | ["fwd"; _; _] | ["one"; _] -> print_string "il ok\n" | _ -> print_string "badop\n") ops
     | _ -> print_string "badtype\n"
